@@ -379,7 +379,7 @@ def shrink(head, labels, pred):
     return cur
 
 
-def h1_suite(seed, count, maxlen, shards=8, extra_hist=None):
+def h1_suite(seed, count, maxlen, shards=8, extra_hist=None, exhaustive=False):
     """generate `count` model-guided histories, run them on the crate, diff.
     returns dict(stats..., mismatches=[(head, labels, idx, model, impl)])"""
     d = os.path.join(CACHE, "h1", "run_%d_%d" % (os.getpid(), seed))
@@ -406,6 +406,18 @@ def h1_suite(seed, count, maxlen, shards=8, extra_hist=None):
         ef = os.path.join(d, "corpus_exp.txt")
         open(ef, "w").write(out)
         files.insert(0, (hf, ef))
+    enum_counts = {}
+    if exhaustive:
+        # every executable history up to depth 3 over the full alphabet, and up to depth 4 over a reduced one
+        for name, depth, red in (("enum_d3_full", 3, 0), ("enum_d4_reduced", 4, 1)):
+            hf, ef = os.path.join(d, name + ".hist"), os.path.join(d, name + ".exp")
+            rc, out = sh([KMODEL, "enum", str(depth), str(red), hf, ef], timeout=600)
+            try:
+                enum_counts[name] = int(out.strip().split()[-1])
+            except Exception:
+                enum_counts[name] = 0
+            files.append((hf, ef))
+    stats["exhaustive"] = enum_counts
     impl_procs = []
     for hf, ef in files:
         impl_procs.append((subprocess.Popen([KVH, "h1"], stdin=open(hf), stdout=subprocess.PIPE,
@@ -416,6 +428,12 @@ def h1_suite(seed, count, maxlen, shards=8, extra_hist=None):
         except subprocess.TimeoutExpired:
             p.kill()
             out, _ = p.communicate()
+        if "enum_" in hf and p.returncode == 0 and out == open(ef).read():
+            # identical output for the whole enumeration: nothing to examine
+            n = out.count("\nE\n") + (1 if out.startswith("E\n") else 0)
+            stats["histories"] += n
+            stats["enumerated_identical"] = stats.get("enumerated_identical", 0) + n
+            continue
         got = parse_blocks(out)
         hung = None
         if p.returncode != 0:
